@@ -257,7 +257,21 @@ def replay(desc, col):
             sess.recost(h["flags"], h["einsum"])
 
 
-MUTANTS = []
+# Scratch worktree = HEAD + regress/C27/suggested_fix.diff (the unchanged tree already fails with
+# recost-reapplies-scales); quick tier, seed 1; all caught (exit 1).
+MUTANTS = [
+    {"what": "suggested fix left out for leak power (scales re-applied to leak only)", "caught": True,
+     "keys": ["recost-reapplies-scales"]},
+    {"what": "suggested fix left out for throughput", "caught": True, "keys": ["recost-reapplies-scales"]},
+    {"what": "components.calculate_area ignores n_parallel_instances", "caught": True, "keys": ["closed-form:area"]},
+    {"what": "components.calculate_action_energy ignores action.energy_scale", "caught": True, "keys": ["closed-form:energy"]},
+    {"what": "components.calculate_action_throughput divides by n_parallel_instances", "caught": True,
+     "keys": ["closed-form:throughput"]},
+    {"what": "components.calculate_leak_power uses area_scale instead of leak_power_scale", "caught": True,
+     "keys": ["closed-form:leak"]},
+    {"what": "unchanged tree (the genuine defect): second call multiplies the stored results by the scales again",
+     "caught": True, "keys": ["recost-reapplies-scales"]},
+]
 
 REGISTER = True
 MANIFEST = {
